@@ -51,7 +51,7 @@ func runC08(c *Ctx) {
 	if c.Thorough() {
 		nCases = 4000
 	}
-	c.R.Rule = fmt.Sprintf("%d upload cases per backend instance and integrity setting drawn from the matrix body (0–3000 B) × Content-MD5 {absent, right, wrong, malformed base64, 15/17-byte digest, empty} × declared length {=, −1, +1, 0, absent, non-numeric, negative} × key length {short, 1023, 1024, 1025} × metadata size {small, limit−1, limit, limit+1} × {plain, aws-chunked with right/wrong decoded length} × {over an existing object, absent key} × reader {EOF, failing after k bytes, k ∈ {0,1,len/2,len−1,len}}; each case snapshots GET+HEAD+listing before and after; compared with the Lean model (Front.createObject) and the specification (acknowledged, or rejected with the snapshot unchanged); the last bytes arrive with or before io.EOF; then %d part uploads per instance over the matrix body × Content-MD5 × declared length × part number {1, 2, 10000, 10001, 0, junk} against a pending upload (ListParts + the object snapshotted before and after; model Front.uploadPartReq; specification: acknowledged with the MD5 of the bytes iff digest and length are right, otherwise refused and nothing changed); non-trivial = distinct case the model rejects", nCases, nCases/4)
+	c.R.Rule = fmt.Sprintf("%d upload cases per backend instance and integrity setting drawn from the matrix body (0–3000 B) × Content-MD5 {absent, right, wrong, malformed base64, 15/17-byte digest, empty} × declared length {=, −1, +1, 0, absent, non-numeric, negative} × key length {short, 1023, 1024, 1025 bytes; multi-byte keys of 1024, 1025 and 1200 bytes (600 characters)} × metadata size {small, limit−1, limit, limit+1} × {plain, aws-chunked with right/wrong decoded length} × {over an existing object, absent key} × reader {EOF, failing after k bytes, k ∈ {0,1,len/2,len−1,len}}; each case snapshots GET+HEAD+listing before and after; compared with the Lean model (Front.createObject) and the specification (acknowledged, or rejected with the snapshot unchanged); the last bytes arrive with or before io.EOF; then %d part uploads per instance over the matrix body × Content-MD5 × declared length × part number {1, 2, 10000, 10001, 0, junk} against a pending upload (ListParts + the object snapshotted before and after; model Front.uploadPartReq; specification: acknowledged with the MD5 of the bytes iff digest and length are right, otherwise refused and nothing changed); non-trivial = distinct case the model rejects", nCases, nCases/4)
 	for _, kind := range c.kinds(impl.AllKinds) {
 		for _, integ := range []bool{true, false} {
 			limit := 300
@@ -97,6 +97,13 @@ func c08Case(c *Ctx, r *Runner, inst *impl.Instance, bucket string, integ bool, 
 		key, keyVariant = strings.Repeat("k", 1024), "1024"
 	case 2:
 		key, keyVariant = strings.Repeat("k", 1025), "1025"
+	case 3:
+		// the limit counts bytes of the key, not characters
+		key, keyVariant = strings.Repeat("é", 512), "1024-bytes-utf8"
+	case 4:
+		key, keyVariant = strings.Repeat("é", 512)+"x", "1025-bytes-utf8"
+	case 5:
+		key, keyVariant = strings.Repeat("é", 600), "1200-bytes-600-chars"
 	}
 	if inst.IsFs() && len(key) > 200 {
 		// the fs backends cannot hold such file names; the limit itself is checked before the backend is reached
@@ -249,7 +256,7 @@ func c08Case(c *Ctx, r *Runner, inst *impl.Instance, bucket string, integ bool, 
 	// why the specification refuses, coarsely: the known findings D16 are about what can only be
 	// seen while or after the body is read (its length, its digest, a failing reader)
 	early := mdVariant == fmt.Sprintf("size=%d", limit+1) ||
-		clVariant == "absent" || clVariant == "nonnumeric" || clVariant == "negative" || keyVariant == "1025" ||
+		clVariant == "absent" || clVariant == "nonnumeric" || clVariant == "negative" || len(key) > 1024 ||
 		integ && (md5Variant == "empty" || md5Variant == "malformed" || md5Variant == "short" || md5Variant == "long")
 	cls := ":streamed"
 	if early {
